@@ -214,6 +214,44 @@ def fresh(R, ctx):
         R.require(rid, "replace_with|floor", n >= 4, ctx.where(fn), "%d temporaries" % n)
 
 
+def repeat_scope(R, ctx):
+    rid = "C06.repeat"
+    lib = ctx.lib
+    REP = "nodes::statements::repeat_statement::RepeatStatement"
+    R.rule(rid, "in `repeat B until C` the condition C is evaluated in the scope of B. A lowering rule that re-nests B into a new inner block must "
+                "therefore also deal with C (move it, or keep the locals visible): the rule's callback for RepeatStatement must reference the "
+                "statement's condition. Sibling contradiction: the scope visitors treat repeat specially, a rule that handles it exactly like "
+                "while/for cannot be right when C reads a local of B")
+    for rule, proc in (("remove_continue", "rules::remove_continue::Processor"),):
+        cands = []
+        for tr in (coverage.NODE_PROCESSOR, coverage.NODE_POST_PROCESSOR):
+            for ti, impl in coverage.impl_methods(lib, tr, proc).items():
+                fn = lib.fns.get(impl)
+                if fn and len(fn["sig"]["inputs"]) >= 2 and lib.types[lib.strip_refs(fn["sig"]["inputs"][1])].get("adt") == REP:
+                    cands.append(fn)
+        if not R.require(rid, "%s|anchor:repeat-callbacks" % rule, len(cands) >= 1, "", "no callback for RepeatStatement"):
+            continue
+        # does any of them re-nest the block?
+        renests = False
+        mentions_cond = False
+        for fn in cands:
+            fa = ctx.an.fa(fn["path"])
+            for c in thir.walk(thir.body_of(fn)):
+                if c.get("k") == "Call" and "fn" in c:
+                    o = set()
+                    for a in c["args"]:
+                        o |= fa.origins(a)
+                    if (REP, "block") in o and c.get("fname") not in ("mutate_block", "get_block"):
+                        renests = True
+                    if (REP, "condition") in o:
+                        mentions_cond = True
+                if c.get("k") == "Field" and c.get("adt") == REP and c.get("f") == "condition":
+                    mentions_cond = True
+        R.ob(rid, "%s|condition-handled-when-body-is-renested" % rule, (not renests) or mentions_cond, ctx.where(cands[-1]),
+             "the RepeatStatement callback passes the body block to a re-nesting helper but never looks at the condition: after lowering, "
+             "`until x` no longer sees `local x` declared in the body" if renests and not mentions_cond else "condition handled / body not re-nested")
+
+
 def run(R, ctx):
     R.explanation = (
         "Structural necessary conditions of the lowering rules on typed THIR: subset relation between the duplicated-without-temporary "
@@ -228,3 +266,4 @@ def run(R, ctx):
     fold_direction(R, ctx)
     box(R, ctx)
     fresh(R, ctx)
+    repeat_scope(R, ctx)
